@@ -18,6 +18,7 @@ mod s_itemparse;
 mod s_keys;
 mod s_limits;
 mod s_macros;
+mod s_origins;
 mod s_params;
 mod s_print;
 mod s_snapshot;
@@ -59,6 +60,7 @@ fn main() {
         "itemparse" => s_itemparse::run(&opts),
         "blockparse" => s_blockparse::run(&opts),
         "convert" => s_convert::run(&opts),
+        "origins" => s_origins::run(&opts),
         "macros" => s_macros::run(&opts),
         "capi" => s_capi::run(&opts),
         "capi-child" => s_capi::child(&opts),
